@@ -70,45 +70,54 @@ Definition is_scheme_text (t : text) : bool := matchb scheme t.
 Definition split_authority (a : text) : option text * text * bool * option text :=
   let '(ui, rest) :=
     if mem 64 a then let (u, r) := span_until [64] a in (Some u, tl r) else (None, a) in
-  match rest with
-  | 91 :: r =>     (* '[' ... ']' [ ':' port ] *)
+  match strip_char 91 rest with
+  | Some r =>     (* '[' ... ']' [ ':' port ] *)
     let (lit, after) := span_until [93] r in
     let after := tl after in
-    (ui, lit, true, match after with 58 :: p => Some p | _ => None end)
-  | _ =>
+    (ui, lit, true, strip_char 58 after)
+  | None =>
     let (h, after) := span_until [58] rest in
-    (ui, h, false, match after with 58 :: p => Some p | _ => None end)
+    (ui, h, false, strip_char 58 after)
   end.
 
 Definition split_spec (s : text) : uri :=
   (* scheme: everything before the first ':' provided no '/', '?' or '#' comes earlier *)
   let (pfx, rest0) := span_until [58; 47; 63; 35] s in
   let '(sch, rest1) :=
-    match rest0 with
-    | 58 :: r => if is_scheme_text pfx then (Some pfx, r) else (None, s)
-    | _ => (None, s)
+    match strip_char 58 rest0 with
+    | Some r => if is_scheme_text pfx then (Some pfx, r) else (None, s)
+    | None => (None, s)
     end in
   (* authority *)
   let '(auth, rest2) :=
-    match rest1 with
-    | 47 :: 47 :: r => let (a, r') := span_until [47; 63; 35] r in (Some a, r')
-    | _ => (None, rest1)
+    match strip_char 47 rest1 with
+    | Some r1 =>
+      match strip_char 47 r1 with
+      | Some r => let (a, r') := span_until [47; 63; 35] r in (Some a, r')
+      | None => (None, rest1)
+      end
+    | None => (None, rest1)
     end in
   let (path, rest3) := span_until [63; 35] rest2 in
   let '(qry, rest4) :=
-    match rest3 with
-    | 63 :: r => let (q, r') := span_until [35] r in (Some q, r')
-    | _ => (None, rest3)
+    match strip_char 63 rest3 with
+    | Some r => let (q, r') := span_until [35] r in (Some q, r')
+    | None => (None, rest3)
     end in
-  let frag := match rest4 with 35 :: r => Some r | _ => None end in
+  let frag := strip_char 35 rest4 in
   (* path structure *)
   let '(abs, segs) :=
-    match auth, path with
-    | _, [] => (false, [])
-    | Some _, 47 :: p => (false, split_on 47 p)
-    | None, 47 :: [] => (true, [])
-    | None, 47 :: p => (true, split_on 47 p)
-    | _, p => (false, split_on 47 p)
+    match path with
+    | [] => (false, [])
+    | _ =>
+      match strip_char 47 path with
+      | Some p =>
+        match auth with
+        | Some _ => (false, split_on 47 p)
+        | None => (true, match p with [] => [] | _ => split_on 47 p end)
+        end
+      | None => (false, split_on 47 path)
+      end
     end in
   match auth with
   | None =>
@@ -116,7 +125,7 @@ Definition split_spec (s : text) : uri :=
   | Some a =>
     let '(ui, h, lit, port) := split_authority a in
     if lit then
-      if match h with c :: _ => (c =? 118) || (c =? 86) | [] => false end
+      if head_is 118 h || head_is 86 h
       then mkUri sch ui (Some h) None None (Some h) port segs qry frag abs false
       else mkUri sch ui (Some h) None (Some (ip6_value h)) None port segs qry frag abs false
     else
